@@ -55,10 +55,11 @@ theorem Bay.trackThread_chans {b b' : Bay} {mode sel inp out : Nat}
   · simp [Bay.register]
 
 theorem Bay.setInputs_chans : ∀ (cs : List Nat) (b b' : Bay) (mi i : Nat),
-    b.setInputs mi i cs = .ok b' → b'.chans = b.chans ∧ b'.selected = b.selected ∧ b'.dirty = b.dirty := by
+    b.setInputs mi i cs = .ok b' → b'.chans = b.chans ∧ b'.selected = b.selected ∧ b'.dirty = b.dirty ∧
+      b'.cbs = b.cbs := by
   intro cs
   induction cs with
-  | nil => intro b b' mi i h; cases h; exact ⟨rfl, rfl, rfl⟩
+  | nil => intro b b' mi i h; cases h; exact ⟨rfl, rfl, rfl, rfl⟩
   | cons c cs ih =>
     intro b b' mi i h
     rw [Bay.setInputs] at h
@@ -76,7 +77,7 @@ theorem Bay.trackCpu_chans {b b' : Bay} {sel out : Nat} {raws : List Nat} {dflt 
     b'.selected = b.selected ++ [some 0] ∧ b'.dirty = b.dirty := by
   obtain ⟨rfl, b1, b2, mi, h1, h2, h3⟩ := Bay.trackCpu_ok h
   obtain ⟨oc, hoc, _, _, _, _, rfl⟩ := Bay.muxInit_ok h1
-  obtain ⟨hc2, hs2, hd2⟩ := Bay.setInputs_chans _ _ _ _ _ h2
+  obtain ⟨hc2, hs2, hd2, _⟩ := Bay.setInputs_chans _ _ _ _ _ h2
   have hc3 : b'.chans = b2.chans ∧ b'.selected = b2.selected ∧ b'.dirty = b2.dirty := by
     unfold Bay.muxSetDefault at h3
     split at h3
@@ -95,6 +96,116 @@ theorem Bay.trackCpu_chans {b b' : Bay} {sel out : Nat} {raws : List Nat} {dflt 
   · simp [Bay.register]
   · simp [Bay.register]
   · simp [Bay.register]
+
+/-! ### effect on the callback lists -/
+
+/-- the output channel a select callback writes -/
+def Bay.outOfCb (b : Bay) : Cb → Option Nat
+  | .muxSelect mi => (b.muxes[mi]?).map (·.out)
+  | .muxInput _ _ => none
+
+/-- outputs of the muxes selected by channel `s`, in callback order -/
+def Bay.selOuts (b : Bay) (s : Nat) : List Nat := (b.cbsOf s).filterMap b.outOfCb
+
+theorem Bay.muxInit_cbsOf {b b' : Bay} {sel out n mi : Nat} {kind : SelKind} (wf : b.WF)
+    (h : b.muxInit sel out kind n = .ok (b', mi)) (s : Nat) :
+    b'.cbsOf s = if s = sel then b.cbsOf s ++ [Cb.muxSelect b.muxes.length] else b.cbsOf s := by
+  obtain ⟨oc, _, hsel, _, _, _, rfl⟩ := Bay.muxInit_ok h
+  have hsl : sel < b.cbs.length := by rw [wf.cbsLen]; exact hsel
+  have hnot : Cb.muxSelect b.muxes.length ∉ b.cbsOf sel := by
+    intro hm
+    obtain ⟨m, hm, _⟩ := wf.selCbOnly sel _ hm
+    have := (List.getElem?_eq_some_iff.mp hm).1
+    omega
+  have key : ∀ (bi : Bay), bi.cbs = b.cbs →
+      (bi.enableCb sel (Cb.muxSelect b.muxes.length)).cbsOf s =
+        if s = sel then b.cbsOf s ++ [Cb.muxSelect b.muxes.length] else b.cbsOf s := by
+    intro bi hbi
+    have hcb : ∀ c, bi.cbsOf c = b.cbsOf c := Bay.cbsOf_congr hbi
+    by_cases hs : s = sel
+    · subst hs
+      simp only [if_true]
+      rw [Bay.enableCb_cbsOf_eq _ _ (by rw [hbi]; exact hsl), hcb]
+      simp [hnot]
+    · simp only [hs, if_false]
+      rw [Bay.enableCb_cbsOf_ne _ _ hs, hcb]
+  exact key _ rfl
+
+theorem Bay.trackThread_cbsOf {b b' : Bay} {mode sel inp out : Nat} (wf : b.WF)
+    (hmode : mode = trackRun ∨ mode = trackAct)
+    (h : b.trackThread mode sel inp = .ok (b', out)) (s : Nat) :
+    b'.cbsOf s = if s = sel then b.cbsOf s ++ [Cb.muxSelect b.muxes.length] else b.cbsOf s := by
+  obtain ⟨_, b1, mi, h1, h2⟩ := Bay.trackThread_ok hmode h
+  obtain ⟨m, _, _, _, _, rfl⟩ := Bay.muxSetInput_ok h2
+  have := Bay.muxInit_cbsOf (wf.register {} rfl) h1 s
+  simp only [Bay.register_cbsOf] at this
+  exact this
+
+theorem Bay.trackCpu_cbsOf {b b' : Bay} {sel out : Nat} {raws : List Nat} {dflt : Value} (wf : b.WF)
+    (h : b.trackCpu sel raws dflt = .ok (b', out)) (s : Nat) :
+    b'.cbsOf s = if s = sel then b.cbsOf s ++ [Cb.muxSelect b.muxes.length] else b.cbsOf s := by
+  obtain ⟨_, b1, b2, mi, h1, h2, h3⟩ := Bay.trackCpu_ok h
+  obtain ⟨_, _, _, hc2⟩ := Bay.setInputs_chans _ _ _ _ _ h2
+  have hc3 : b'.cbs = b2.cbs := by
+    unfold Bay.muxSetDefault at h3
+    split at h3
+    · cases h3
+    · cases h3; rfl
+  have := Bay.muxInit_cbsOf (wf.register {} rfl) h1 s
+  simp only [Bay.register_cbsOf] at this
+  rw [Bay.cbsOf_congr (hc3.trans hc2)]
+  exact this
+
+theorem filterMap_congr' {α β} {f g : α → Option β} : ∀ {l : List α}, (∀ a ∈ l, f a = g a) →
+    l.filterMap f = l.filterMap g := by
+  intro l
+  induction l with
+  | nil => intro _; rfl
+  | cons a l ih =>
+    intro h
+    rw [List.filterMap_cons, List.filterMap_cons, h a (by simp), ih (fun x hx => h x (by simp [hx]))]
+
+theorem Bay.selOuts_lt {b : Bay} (wf : b.WF) {s x : Nat} (hx : x ∈ b.selOuts s) : x < b.chans.length := by
+  obtain ⟨cb, _, hcb⟩ := List.mem_filterMap.mp hx
+  cases cb with
+  | muxInput _ _ => cases hcb
+  | muxSelect mi =>
+    simp only [Bay.outOfCb] at hcb
+    cases hm : b.muxes[mi]? with
+    | none => rw [hm] at hcb; cases hcb
+    | some m => rw [hm] at hcb; cases hcb; exact wf.outLt mi m hm
+
+/-- A connection step appends the new mux's output to the select channel's
+    list and leaves the others alone; the lists stay increasing. -/
+theorem Bay.selOuts_snoc {b b' : Bay} {sel : Nat} {mnew : Mux} (wf : b.WF)
+    (hmx : b'.muxes = b.muxes ++ [mnew]) (hnew : b.chans.length ≤ mnew.out)
+    (hcbs : ∀ s, b'.cbsOf s = if s = sel then b.cbsOf s ++ [Cb.muxSelect b.muxes.length] else b.cbsOf s)
+    (hasc : ∀ s, (b.selOuts s).Pairwise (· < ·)) (s : Nat) : (b'.selOuts s).Pairwise (· < ·) := by
+  have hold : (b.cbsOf s).filterMap b'.outOfCb = b.selOuts s := by
+    unfold Bay.selOuts
+    apply filterMap_congr'
+    intro cb hcb
+    cases cb with
+    | muxInput _ _ => rfl
+    | muxSelect mi =>
+      obtain ⟨m, hm, _⟩ := wf.selCbOnly s mi hcb
+      have hlt := (List.getElem?_eq_some_iff.mp hm).1
+      simp only [Bay.outOfCb, hmx, List.getElem?_append_left hlt]
+  unfold Bay.selOuts
+  rw [hcbs s]
+  by_cases hs : s = sel
+  · simp only [hs, if_true, List.filterMap_append]
+    rw [← hs, hold]
+    have hnewo : [Cb.muxSelect b.muxes.length].filterMap b'.outOfCb = [mnew.out] := by
+      simp [Bay.outOfCb, hmx]
+    rw [hnewo, List.pairwise_append]
+    refine ⟨hasc s, by simp, ?_⟩
+    intro x hx y hy
+    have := Bay.selOuts_lt wf hx
+    simp only [List.mem_singleton] at hy
+    omega
+  · simp only [hs, if_false]
+    rw [hold]; exact hasc s
 
 /-! ### the invariant of the connection loop -/
 
@@ -140,10 +251,12 @@ structure Shape.Built (σ : Shape) (p : Nat) (b : Bay) : Prop where
     (b.chan m.out).isStack = false ∧ (b.chan m.out).dirtyWrite = true
   dirty : b.dirty = []
   modes : ∀ (j : Nat) (job : Job), j < p → σ.jobs[j]? = some job → σ.JobOk job
+  /-- the select callbacks of every channel are in `mux_init` order = increasing output id -/
+  selAsc : ∀ (s : Nat), (b.selOuts s).Pairwise (· < ·)
 
 theorem Shape.built_zero (σ : Shape) : σ.Built 0 σ.bay0 := by
   have hmx : σ.bay0.muxes = [] := by simp [Shape.bay0, Bay.registerAll_eq]
-  refine ⟨σ.bay0_topo, ?_, fun _ _ => rfl, ?_, ?_, ?_, ?_, ?_⟩
+  refine ⟨σ.bay0_topo, ?_, fun _ _ => rfl, ?_, ?_, ?_, ?_, ?_, ?_⟩
   · rw [σ.bay0_chans]; simp [Shape.L]
   · rw [hmx]; simp [Shape.muxList]
   · intro mi j h
@@ -152,6 +265,15 @@ theorem Shape.built_zero (σ : Shape) : σ.Built 0 σ.bay0 := by
   · intro mi m h; rw [hmx] at h; simp at h
   · simp [Shape.bay0, Bay.registerAll_eq]
   · intro j job hj; omega
+  · intro s
+    have : σ.bay0.selOuts s = [] := by
+      unfold Bay.selOuts Bay.outOfCb
+      apply List.filterMap_eq_nil_iff.mpr
+      intro cb _
+      cases cb with
+      | muxInput _ _ => rfl
+      | muxSelect mi => simp [hmx]
+    rw [this]; exact List.Pairwise.nil
 
 theorem Bay.chan_congr {b b' : Bay} {c : Nat} (h : b'.chans[c]? = b.chans[c]?) : b'.chan c = b.chan c := by
   simp [Bay.chan, List.getD_eq_getElem?_getD, h]
@@ -188,7 +310,12 @@ theorem Shape.Built.step {σ : Shape} {p : Nat} {b b' : Bay} {job : Job} {o : Na
       have hmo : σ.muxOf (.th g k i) (σ.L + p) = none := by simp only [Shape.muxOf, hk, ha, if_true]
       rw [hmo] at hml
       refine ⟨hb.topo.register, ?_, ?_, ?_, hb.selZero, ?_, hb.dirty,
-        hmodes (fun m' hk' => by rw [hk] at hk'; cases hk'; exact Or.inl ha)⟩
+        hmodes (fun m' hk' => by rw [hk] at hk'; cases hk'; exact Or.inl ha), ?_⟩
+      rotate_right
+      · intro s
+        have : (b.register {}).1.selOuts s = b.selOuts s := by
+          unfold Bay.selOuts; rw [Bay.register_cbsOf]; rfl
+        rw [this]; exact hb.selAsc s
       · simp [Bay.register, hb.len]; omega
       · intro c hc
         rw [← hb.src c hc]
@@ -216,7 +343,9 @@ theorem Shape.Built.step {σ : Shape} {p : Nat} {b b' : Bay} {job : Job} {o : Na
         show b1.chans.length = _
         rw [hl1]; simp [Bay.register, hb.len]; omega
       refine ⟨t', hlen', ?_, ?_, ?_, ?_, hdt.trans hb.dirty,
-        hmodes (fun m' hk' => by rw [hk] at hk'; cases hk'; exact Or.inr hmode)⟩
+        hmodes (fun m' hk' => by rw [hk] at hk'; cases hk'; exact Or.inr hmode),
+        Bay.selOuts_snoc hb.topo.wf hmx' (by rw [hout]; exact Nat.le_refl _)
+          (Bay.trackThread_cbsOf hb.topo.wf hmode h) hb.selAsc⟩
       · intro c hc; rw [← hb.src c hc]; exact hch c (by rw [hb.len]; omega)
       · rw [hmx', hml, hb.muxes, hop]
       · intro mi j hsj
@@ -256,7 +385,9 @@ theorem Shape.Built.step {σ : Shape} {p : Nat} {b b' : Bay} {job : Job} {o : Na
           · cases h3
           · cases h3; rfl
         rw [hc3, hc2, hl1]; simp [Bay.register, hb.len]; omega
-      refine ⟨⟨wf', hlay, hno, ?_, hlen⟩, hlen', ?_, ?_, ?_, ?_, hdt.trans hb.dirty, hmodes trivial⟩
+      refine ⟨⟨wf', hlay, hno, ?_, hlen⟩, hlen', ?_, ?_, ?_, ?_, hdt.trans hb.dirty, hmodes trivial,
+        Bay.selOuts_snoc hb.topo.wf hmx' (by rw [hout]; exact Nat.le_refl _)
+          (Bay.trackCpu_cbsOf hb.topo.wf h) hb.selAsc⟩
       · intro x
         by_cases e : x = o
         · rw [e]; exact hnullo
